@@ -43,6 +43,11 @@ def run(tier):
         for p in _drv.PRECS:
             kernels.supernode_sweep_rule(chk, 'C14.kern.sweep', prog, p, cfgname)
             kernels.beta_zero_rule(chk, 'C14.kern.sweep', prog, p, cfgname)
+        from ..rules import r12_supernodal
+        chk.clause('C14.kern.index', 'dense kernels of the solve routines are applied to the right part of each supernode block (polynomial index domain)')
+        for p in _drv.PRECS:
+            r12_supernodal.run_solve(chk, 'C14.kern.index', prog, p + 'gstrs', cfgname)
+            r12_supernodal.run_solve(chk, 'C14.kern.index', prog, 'sp_%strsv' % p, cfgname)
         chk.clause('C14.kern.unrolled', 'column pointers of the bundled unrolled kernels start where the block layout puts them')
         nu = sum(kernels.unrolled_kernel_rule(chk, 'C14.kern.unrolled', prog, p, cfgname) for p in _drv.PRECS)
         if nu < 80:
